@@ -1,0 +1,10 @@
+// Copyright (c) 2026, the mvdan/sh verification harness
+// See LICENSE for licensing information
+
+//go:build !verif
+
+package interp
+
+// verifYield marks a scheduling point for the verification harness;
+// see verif_on.go. Without the build tag "verif" it does nothing.
+func verifYield(point string, r *Runner) {}
